@@ -130,4 +130,28 @@ def C04(s, known):
                             "each through the real `crd text parse`: accepted iff Lexer o ChordLang accept, tree equal")
 
 
-PLANS = {"C04": C04, "C16": C16, "C01": C01, "C02": C02, "C06": C06, "C07": C07, "C08": C08, "C17": C17, "C15": C15, "C14": C14, "C13": C13, "C03": C03}
+def C05(s, known):
+    s.build()
+    s.model("TheoryMC", workers=4)
+    s.model("LexerMC", workers=8, constants={"K": 3})
+    m = s.drive("c05")
+    s.validate(m, "ConvTrace", cfg="C05Trace.cfg", known=known, shard=max(10, len_records(m) // 12 + 1))
+    s.validate(m, "TransposeTrace", known=known, shard=max(10, len_records(m) // 12 + 1))
+    return dict(level="model_checking",
+                explanation="Conv.tla: the converter as a fold carrying the current key (change applied before the carrying chord); every progression is "
+                            "rendered as degree text and as note-name text per key, the spec re-derives that they denote the same instances, and the real "
+                            "conversions must equal that meaning and each other")
+
+
+def C11(s, known):
+    s.build()
+    s.model("LexerMC", workers=8, constants={"K": 3 if s.tier == "quick" else 4})
+    m = s.drive("c11")
+    s.validate(m, "ConvTrace", cfg="C11Trace.cfg", known=known, shard=max(10, len_records(m) // 12 + 1))
+    return dict(level="model_checking",
+                explanation="Lexer.tla defines the abstract token sequence (NUMBER by value, SHARP/FLAT by kind, optional `_` dropped); for every "
+                            "(canonical text, spelling variant) pair the spec re-derives that the two are variants, then the real `text conv` outputs must be "
+                            "byte-identical and equal to the meaning Conv.tla computes (an accepted accidental is honoured)")
+
+
+PLANS = {"C11": C11, "C05": C05, "C04": C04, "C16": C16, "C01": C01, "C02": C02, "C06": C06, "C07": C07, "C08": C08, "C17": C17, "C15": C15, "C14": C14, "C13": C13, "C03": C03}
